@@ -39,7 +39,7 @@ for prop, origin, name, files, r in rows:
 n_m = sum(1 for r in rows if r[1] == "mutant"); c_m = sum(1 for r in rows if r[1] == "mutant" and r[4] and r[4]["outcome"] == "caught")
 n_s = sum(1 for r in rows if r[1] == "sub-agent"); c_s = sum(1 for r in rows if r[1] == "sub-agent" and r[4] and r[4]["outcome"] == "caught")
 out.append("")
-out.append("Totals of the last selftest run (repo HEAD %s): %d/%d mutants caught, %d/%d sub-agent changes caught, neutral patches silent: %s." % (
+out.append("Totals over the merged selftest runs (each case at the last run that included it; latest repo HEAD %s): %d/%d mutants caught, %d/%d sub-agent changes caught, neutral patches silent: %s." % (
     res["head"][:7], c_m, n_m, c_s, n_s, all(r[4] and r[4]["outcome"] == "MISSED" for r in rows if r[1] == "neutral patch")))
 p = os.path.join(ROOT, "DESIGN.md")
 s = open(p).read()
